@@ -387,7 +387,9 @@ class Real:
                         conn.close()
                     with open(self.path, "r+b") as f:
                         f.seek(36)
-                        f.write((5).to_bytes(4, "big"))
+                        cur = int.from_bytes(f.read(4), "big")
+                        f.seek(36)
+                        f.write((cur + 7).to_bytes(4, "big"))   # freelist page count no longer matches the list
             elif how == "header":
                 if self.path.exists() and self.path.stat().st_size >= 100:
                     with open(self.path, "r+b") as f:
@@ -689,7 +691,9 @@ def search(ctx):
 
 
 def replay(ctx, payload):
-    c = payload["case"]
+    c = payload.get("case") or next((d["case"] for d in payload.get("details", []) if d.get("case")), None)
+    if c is None:
+        raise HarnessError("replay file without a case (a broken tie of the Lean build/audit has no input)")
     ops = c["ops"][:c["upto"]] if "upto" in c else c["ops"]
     with a01.Quiet():
         check_history(ctx, Pool.from_texts(c["texts"]), ops, ctx.driver("drv_c01"), source_cfg())
